@@ -300,7 +300,15 @@ func (c *conn) BeginTx(ctx context.Context, opts driver.TxOptions) (driver.Tx, e
 	if c.closed {
 		return nil, driver.ErrBadConn
 	}
-	e := Entry{Kind: "begin", Conn: c.id, SQL: "START TRANSACTION"}
+	// the options travel the way go-sql-driver/mysql sends them: SET TRANSACTION ISOLATION LEVEL ... and START TRANSACTION READ ONLY
+	beginSQL := "START TRANSACTION"
+	if opts.Isolation != 0 {
+		beginSQL = fmt.Sprintf("SET TRANSACTION ISOLATION LEVEL %v; ", sql.IsolationLevel(opts.Isolation)) + beginSQL
+	}
+	if opts.ReadOnly {
+		beginSQL += " READ ONLY"
+	}
+	e := Entry{Kind: "begin", Conn: c.id, SQL: beginSQL}
 	if err := s.fault(Op{Conn: c.id, Kind: "begin", SQL: "START TRANSACTION"}); err != nil {
 		e.Err, e.Injected = err.Error(), true
 		if err == driver.ErrBadConn {
@@ -315,6 +323,7 @@ func (c *conn) BeginTx(ctx context.Context, opts driver.TxOptions) (driver.Tx, e
 		return nil, err
 	}
 	e.Txn = c.txid()
+	c.tx.readOnly = opts.ReadOnly
 	s.record(e)
 	return &tx{c: c}, nil
 }
